@@ -4,8 +4,10 @@ mod abi;
 mod bitboard;
 mod chess;
 mod fen;
+mod iter;
 mod rng;
 mod score;
+mod search;
 mod tables;
 mod text;
 mod tracing;
@@ -54,12 +56,26 @@ fn main() {
         }
         "epfamily" => chess::ep_family(&mut out, &mut rng, n.max(1) as u64),
         "castlefamily" => chess::castle_family(&mut out),
+        "checkfamily" => {
+            let s2: u64 = args.get(3).and_then(|s| s.parse().ok()).unwrap_or(1);
+            chess::check_family(&mut out, &mut rng, n.max(1) as u64, s2)
+        }
+        "pinfamily" => chess::pin_family(&mut out, &mut rng, n.max(1) as u64),
         "fen" => {
             let seeds: usize = args.get(3).and_then(|s| s.parse().ok()).unwrap_or(2);
             fen::run(&mut out, &mut rng, n, seeds)
         }
         "builder" => fen::builders(&mut out, &mut rng, n),
         "book" => chess::book(&mut out),
+        "iter" => iter::sequences(&mut out, &mut rng, n),
+        "search" => {
+            let kmax: u64 = args.get(3).and_then(|s| s.parse().ok()).unwrap_or(600);
+            search::run(&mut out, &mut rng, n, kmax)
+        }
+        "mirror" => {
+            let kmax: u64 = args.get(3).and_then(|s| s.parse().ok()).unwrap_or(2000);
+            search::mirrors(&mut out, &mut rng, n, kmax)
+        }
         "replay" => {
             let line = args.get(2).cloned().unwrap_or_default();
             let f: Vec<&str> = line.split('\t').collect();
@@ -73,6 +89,8 @@ fn main() {
                 "PO" | "MV" | "CK" | "LG" => chess::replay(&mut out, &f),
                 "FP" | "BL" => fen::replay(&mut out, &f),
                 "BK" | "BKS" => chess::book(&mut out),
+                "GI" => iter::replay(&mut out, &f),
+                "SR" | "MR" => search::replay(&mut out, &f),
                 k => {
                     eprintln!("replay: unknown kind {k}");
                     std::process::exit(2)
